@@ -293,8 +293,11 @@ class Scheduler(object):
         jumpable = None
         if self.jump and n_en >= 1:
             # TM-jump: offer "fire the earliest pending timer now" as an extra choice
+            # only timed waits on library primitives may fire early; the harness's own
+            # mc.sleep()/wait_until() are the environment's clock, not a slow thread
             cand = [t for t in threads if not t.finished and t.deadline is not None
-                    and t not in enabled and t.deadline <= self.horizon]
+                    and t not in enabled and t.deadline <= self.horizon
+                    and t.kind not in ("sleep", "wait_until")]
             if cand:
                 jumpable = min(cand, key=lambda t: (t.deadline, t.idx))
         total = n_en + (1 if jumpable is not None else 0)
